@@ -41,9 +41,10 @@ SHAPES: Dict[str, Tuple[str, int, Any]] = {
     "call": ("[{0}, {1}].exists(x, x)", 2, lambda v: v[0] or v[1]),
     "index": ("{{'k': {0}}}['k']", 1, lambda v: v[0]),
     "strpre": ("')' != '(' && {0}", 1, lambda v: v[0]),
+    "stror": ("'(' == ')(' || {0}", 1, lambda v: v[0]),
     "strq": ("[{0}, '&& || ? :' == ')'].exists(x, x)", 1, lambda v: v[0]),
 }
-COMPOUND = ["and", "or", "tern", "off", "on", "andor", "orand", "strpre"]
+COMPOUND = ["and", "or", "tern", "off", "on", "andor", "orand", "strpre", "stror"]
 SIMPLE = [s for s in SHAPES if s not in COMPOUND]
 
 # real Custodian clauses (resource type, clause) — every family with a compound translation, and plain ones
@@ -290,7 +291,7 @@ class C18(Prop):
                "text-level scanner top_level_logic vs. its token-level model (string literals are single tokens): corresponded",
                "the library's evaluator on the boolean fragment (&&, ||, !, ?:, ==, in, exists) agrees with evalBool: corresponded"]
     rule = ("filter trees with connectives and/or/not/list, fan-out 1-3, depth <= 4: every tree shape with <= 5 nodes (quick) / <= 7 "
-            "nodes (thorough) plus random larger ones; leaves are boolean clause representatives of 18 top-level shapes (atom, !, &&, "
+            "nodes (thorough) plus random larger ones; leaves are boolean clause representatives of 19 top-level shapes (atom, !, &&, "
             "||, ?:, offhour-/onhour-like ?:, relation, in, call, index, parenthesised, a && (b || c), a || b && c, a string literal "
             "containing operators) or real Custodian clauses (value, marked-for-op, offhour, onhour, flow-logs, is-not-logging, ...) "
             "through the real rewriters; all 2^k truth assignments to the k clauses (k <= 6; 64 random ones above), each realised by "
@@ -526,6 +527,7 @@ class C18(Prop):
             res = rng.choice(list(REAL))
             t = rand_tree(rng, rng.randint(2, 7), 4)
             cases.append({"kind": "real", "resource": res, "f": fill(t, lambda i: rng.randrange(len(REAL[res])))})
+        cases.sort(key=lambda c: n_nodes(c["f"]))     # small inputs first
         return cases
 
     def search_cases(self, rng):
